@@ -14,6 +14,10 @@ def _lift_num(x):
     """scalar operand -> proxy-compatible python object"""
     if isinstance(x, (SBool, SInt, SReal)):
         return x
+    if isinstance(x, SymScalar):
+        return object.__getattribute__(x, 'payload')
+    if isinstance(x, np.ndarray) and x.ndim == 0 and x.dtype == object:
+        return _lift_num(x.view(np.ndarray)[()])
     if isinstance(x, (np.bool_, bool)):
         return bool(x)
     if isinstance(x, (np.integer,)):
@@ -158,6 +162,8 @@ def plain(x):
     """view without the subclass (so that numpy does not call us back)"""
     if isinstance(x, SymArray):
         return x.view(np.ndarray)
+    if isinstance(x, SymScalar):
+        return object.__getattribute__(x, 'payload')
     return x
 
 
@@ -202,7 +208,9 @@ class SymArray(np.ndarray):
                 return o
             if isinstance(res, np.ndarray):
                 return res.view(SymArray)
-            return SymArray(res)         # 0-d result stays an (0-d) array, like np.generic
+            if not any(isinstance(x, np.ndarray) for x in inputs):
+                return SymScalar.wrap(res)   # only numpy scalars in: numpy scalar out
+            return SymArray(res)         # 0-d array in: stays a (0-d) array
         if method == 'reduce':
             (a,) = args
             axis = kwargs.pop('axis', 0)
@@ -281,6 +289,14 @@ class SymArray(np.ndarray):
         return r
 
     def __setitem__(self, idx, val):
+        # a[mask] = v with a symbolic boolean mask of a's shape: element-wise ite, no forking
+        if isinstance(idx, np.ndarray) and idx.dtype == object and idx.shape == self.shape and \
+                (np.ndim(val) == 0 or np.shape(val) == self.shape):
+            flat = plain(idx).ravel() if idx.ndim else [plain(idx)[()]]
+            if all(isinstance(x, (SBool, bool, np.bool_)) for x in flat):
+                new = _where(idx, val, self)
+                super().__setitem__(Ellipsis, plain(new) if isinstance(new, np.ndarray) else new)
+                return
         super().__setitem__(self._conc_index(idx), plain(val) if isinstance(val, np.ndarray) else val)
 
     # ------------------------------------------------------------------ misc methods
@@ -319,6 +335,194 @@ class SymArray(np.ndarray):
     def argsort(self, axis=-1, kind=None, order=None):
         return sym_argsort(self, axis=axis)
 
+    # numpy's object loops call a method named after the ufunc on each *element*; a 0-d SymArray
+    # can end up as an element of a plain object array (np.array([zero_d_array]))
+    def fabs(self):
+        return np.fabs(self)
+
+    def sqrt(self):
+        return np.sqrt(self)
+
+
+class SymScalar(np.float32):
+    """A numpy *scalar* (instance of np.generic; np.float32-based so that it is NOT a Python float,
+    which Dataset.__init__ would re-wrap with np.float64()) carrying a symbolic real.
+
+    Needed because valjean distinguishes np.generic from np.ndarray with isinstance().  The
+    float value stored in the C struct is a meaningless 0.0: every Python-level access is
+    intercepted (ufuncs through __array_ufunc__, operators below) and attribute access is
+    white-listed so that nothing can silently read the 0.0.
+    """
+    _ALLOWED = frozenset(('payload', 'shape', 'ndim', 'size', 'dtype', 'squeeze', 'copy', 'all', 'any',
+                          'sqrt', 'isnan', 'reshape', 'ravel', 'flatten', 'item', 'T', 'astype',
+                          'fabs', 'tolist', 'view', 'sum', 'min', 'max', 'model_value', 'data'))
+
+    def __new__(cls, payload):
+        o = np.float32.__new__(cls, 0.0)
+        object.__setattr__(o, 'payload', payload)
+        return o
+
+    @staticmethod
+    def wrap(res):
+        if isinstance(res, (SReal, SInt)):
+            return SymScalar(res)
+        return res
+
+    def __getattribute__(self, name):
+        if name.startswith('__') or name in SymScalar._ALLOWED or name.startswith('_'):
+            return object.__getattribute__(self, name)
+        raise UnsupportedSymbolic(f'attribute {name!r} of a symbolic numpy scalar')
+
+    def __setattr__(self, name, val):
+        raise UnsupportedSymbolic('setattr on a symbolic numpy scalar')
+
+    # ---- numpy protocols
+    def __array_ufunc__(self, ufunc, method, *inputs, out=None, **kwargs):
+        return SymArray.__array_ufunc__(None, ufunc, method, *inputs, out=out, **kwargs)
+
+    def __array_function__(self, func, types, args, kwargs):
+        h = FUNCS.get(func)
+        if h is not None:
+            return h(*args, **kwargs)
+        if func in (np.shape, np.ndim, np.size) and len(args) == 1 and not kwargs:
+            return {np.shape: (), np.ndim: 0, np.size: 1}[func]
+        raise UnsupportedSymbolic(f'numpy function {func.__name__} on a symbolic numpy scalar')
+
+    def __array__(self, dtype=None, copy=None):
+        raise UnsupportedSymbolic('conversion of a symbolic numpy scalar to a plain array')
+
+    # ---- ndarray-like methods
+    shape = ()
+    ndim = 0
+    size = 1
+
+    @property
+    def dtype(self):
+        return np.dtype(object)
+
+    def squeeze(self, axis=None):
+        return self
+
+    def copy(self, order='C'):
+        return SymScalar(self.payload)
+
+    def item(self):
+        return self.payload
+
+    def all(self, *a, **k):
+        return _b(self.payload)
+
+    def any(self, *a, **k):
+        return _b(self.payload)
+
+    def sum(self, *a, **k):
+        return self
+
+    def min(self, *a, **k):
+        return self
+
+    def max(self, *a, **k):
+        return self
+
+    def reshape(self, *shape, **k):
+        return SymArray(self.payload).reshape(*shape)
+
+    def ravel(self, *a):
+        return SymArray(self.payload).reshape((1,))
+    flatten = ravel
+
+    def astype(self, dtype, **k):
+        if np.dtype(dtype) == object:
+            return self
+        raise UnsupportedSymbolic('astype on a symbolic numpy scalar')
+
+    # ---- operators
+    def _bin(self, o, f, swap=False):
+        if isinstance(o, np.ndarray) and o.ndim > 0:
+            return NotImplemented
+        a, b = self.payload, plain(o)
+        if isinstance(b, np.ndarray):
+            b = b[()]
+        r = f(b, a) if swap else f(a, b)
+        return SymScalar.wrap(r)
+
+    def __add__(self, o):
+        return self._bin(o, UFUNCS['add'])
+
+    def __radd__(self, o):
+        return self._bin(o, UFUNCS['add'], True)
+
+    def __sub__(self, o):
+        return self._bin(o, UFUNCS['subtract'])
+
+    def __rsub__(self, o):
+        return self._bin(o, UFUNCS['subtract'], True)
+
+    def __mul__(self, o):
+        return self._bin(o, UFUNCS['multiply'])
+
+    def __rmul__(self, o):
+        return self._bin(o, UFUNCS['multiply'], True)
+
+    def __truediv__(self, o):
+        return self._bin(o, UFUNCS['true_divide'])
+
+    def __rtruediv__(self, o):
+        return self._bin(o, UFUNCS['true_divide'], True)
+
+    def __pow__(self, o, mod=None):
+        return self._bin(o, UFUNCS['power'])
+
+    def __neg__(self):
+        return SymScalar.wrap(_neg(self.payload))
+
+    def __pos__(self):
+        return self
+
+    def __abs__(self):
+        return SymScalar.wrap(_abs(self.payload))
+
+    def __lt__(self, o):
+        return self._bin(o, UFUNCS['less'])
+
+    def __le__(self, o):
+        return self._bin(o, UFUNCS['less_equal'])
+
+    def __gt__(self, o):
+        return self._bin(o, UFUNCS['greater'])
+
+    def __ge__(self, o):
+        return self._bin(o, UFUNCS['greater_equal'])
+
+    def __eq__(self, o):
+        return self._bin(o, UFUNCS['equal'])
+
+    def __ne__(self, o):
+        return self._bin(o, UFUNCS['not_equal'])
+
+    def __bool__(self):
+        return bool(_b(self.payload))
+
+    def __float__(self):
+        raise UnsupportedSymbolic('float() of a symbolic numpy scalar')
+
+    def __int__(self):
+        raise UnsupportedSymbolic('int() of a symbolic numpy scalar')
+
+    def __hash__(self):
+        raise UnsupportedSymbolic('hash() of a symbolic numpy scalar')
+
+    def __repr__(self):
+        return f'SymScalar({self.payload!r})'
+
+    __str__ = __repr__
+
+    def __format__(self, spec):
+        return repr(self)
+
+    def __reduce__(self):
+        raise UnsupportedSymbolic('pickling a symbolic numpy scalar')
+
 
 # ---------------------------------------------------------------------- array functions
 def _where(cond, x=None, y=None):
@@ -326,7 +530,16 @@ def _where(cond, x=None, y=None):
         c = np.array([bool(v) for v in plain(np.asarray(cond, dtype=object)).ravel()]
                      ).reshape(np.shape(cond))
         return np.where(c)
-    cond, x, y = (plain(np.asarray(v) if not isinstance(v, np.ndarray) else v) for v in (cond, x, y))
+    def conv(v):
+        v = plain(v)
+        if isinstance(v, np.ndarray):
+            return v
+        if isinstance(v, (SBool, SInt, SReal)):
+            a = np.empty((), dtype=object)
+            a[()] = v
+            return a
+        return np.asarray(v)
+    cond, x, y = conv(cond), conv(x), conv(y)
 
     def pick(c, a, b):
         c = _lift_num(c)
@@ -469,6 +682,100 @@ FUNCS = {
 }
 
 
+# ---------------------------------------------------------------------- numpy facade
+def _has_sym(x):
+    if isinstance(x, (SBool, SInt, SReal, SymScalar, SymArray)):
+        return True
+    if isinstance(x, np.ndarray):
+        return x.dtype == object
+    if isinstance(x, (list, tuple)):
+        return any(_has_sym(e) for e in x)
+    return False
+
+
+def sym_stack(x):
+    """what np.array(nested list) would build, without numpy's C-level coercion of the scalars"""
+    def to_obj(e):
+        if isinstance(e, SymScalar):
+            return object.__getattribute__(e, 'payload')
+        if isinstance(e, np.ndarray):
+            p = plain(e)
+            if p.ndim == 0:
+                return to_obj(p[()])
+            return [to_obj(c) for c in p]
+        if isinstance(e, (list, tuple)):
+            return [to_obj(c) for c in e]
+        return _lift_num(e)
+    nested = to_obj(x)
+
+    def shape_of(n):
+        if isinstance(n, list):
+            if not n:
+                return (0,)
+            sub = [shape_of(c) for c in n]
+            if any(s != sub[0] for s in sub):
+                raise UnsupportedSymbolic('ragged nested sequence of symbolic values')
+            return (len(n),) + sub[0]
+        return ()
+    shp = shape_of(nested)
+    a = np.empty(shp, dtype=object)
+
+    def fill(n, idx):
+        if isinstance(n, list):
+            for i, c in enumerate(n):
+                fill(c, idx + (i,))
+        else:
+            a[idx] = n
+    fill(nested, ())
+    return a.view(SymArray)
+
+
+class NumpyFacade:
+    """Stands in for the ``np`` global of a valjean module during symbolic runs.  Identical to
+    numpy except that (nested) lists/tuples holding symbolic values are stacked into a SymArray
+    *before* numpy's C-level array coercion could read the meaningless float of a SymScalar."""
+
+    def __init__(self):
+        self.__dict__['_cache'] = {}
+
+    def __getattr__(self, name):
+        attr = getattr(np, name)
+        if isinstance(attr, type) or not callable(attr):
+            return attr
+        c = self._cache.get(name)
+        if c is None:
+            def wrapped(*a, __f=attr, **k):
+                a = [sym_stack(x) if isinstance(x, (list, tuple)) and _has_sym(x) else x for x in a]
+                k = {kk: (sym_stack(v) if isinstance(v, (list, tuple)) and _has_sym(v) else v)
+                     for kk, v in k.items()}
+                return __f(*a, **k)
+            wrapped.__name__ = name
+            for at in ('reduce', 'accumulate', 'outer', 'at'):
+                if hasattr(attr, at):
+                    setattr(wrapped, at, getattr(attr, at))
+            c = self._cache[name] = wrapped
+        return c
+
+
+import contextlib
+
+
+@contextlib.contextmanager
+def numpy_facade(*modules):
+    """replace the ``np`` global of the given modules by a NumpyFacade (symbolic mode only)"""
+    fac = NumpyFacade()
+    saved = []
+    for m in modules:
+        if getattr(m, 'np', None) is np:
+            saved.append(m)
+            m.np = fac
+    try:
+        yield fac
+    finally:
+        for m in saved:
+            m.np = np
+
+
 # ---------------------------------------------------------------------- helpers for harnesses
 def sym_real_array(ex, name, shape, **kw):
     """array of registered symbolic reals (symbolic mode) or floats (replay mode)"""
@@ -484,7 +791,7 @@ def sym_real_array(ex, name, shape, **kw):
     return a
 
 
-def cells(a):
-    """flat list of the cells of an array (proxies or floats)"""
-    a = np.asarray(a)
-    return [a[idx] for idx in np.ndindex(*a.shape)] if a.ndim else [a[()]]
+def sym_real_scalar(ex, name, **kw):
+    """numpy scalar: SymScalar (symbolic mode) or np.float64 (replay mode)"""
+    x = ex.real(name, **kw)
+    return SymScalar(x) if ex.symbolic else np.float64(x)
